@@ -482,6 +482,34 @@ def r4_recording_robust(ctx, sym):
                       raised.kind if raised is not None else 'unexpected result')),
               "class OutOfStock(Exception):\n    def __str__(self): return 'only ' + 3\nraise OutOfStock()  -> "
               "run() raises TypeError into the instructor script instead of returning")
+    # the traceback text: format_line executed abstractly on traceback entries with and without column information
+    # (CPython documents FrameSummary.colno/end_colno/end_lineno as Optional: -X no_debug_ranges, PYTHONNODEBUGRANGES,
+    # code objects without positions) under each interpreter-version switch pedal tests
+    ux = ctx.repo.module('pedal.utilities.exceptions')
+    fl = ux.func('ExpandedTraceback.format_line')
+    ctx.analysed_function(ux, fl)
+    versions = {'3.13': dict(IS_AT_LEAST_PYTHON_313=True, IS_AT_LEAST_PYTHON_311=True, IS_AT_LEAST_PYTHON_310=True),
+                '3.11/3.12': dict(IS_AT_LEAST_PYTHON_313=False, IS_AT_LEAST_PYTHON_311=True, IS_AT_LEAST_PYTHON_310=True),
+                '3.10': dict(IS_AT_LEAST_PYTHON_313=False, IS_AT_LEAST_PYTHON_311=False, IS_AT_LEAST_PYTHON_310=True),
+                '3.9': dict(IS_AT_LEAST_PYTHON_313=False, IS_AT_LEAST_PYTHON_311=False, IS_AT_LEAST_PYTHON_310=False)}
+    for vname, flags in versions.items():
+        for fname, cols in (('with columns', dict(colno=4, end_colno=9, end_lineno=3)),
+                            ('without columns', dict(colno=None, end_colno=None, end_lineno=None)),
+                            ('multi-line expression', dict(colno=4, end_colno=2, end_lineno=5))):
+            frame = Obj('FrameSummary', lineno=3, line='print(a / b)', _line='    print(a / b)', _lines='    print(a / b)',
+                        filename='answer.py', name='<module>', **cols)
+            fmt = Obj('formatter')
+            symexec.method(fmt, 'python_code', lambda *a, **k: 'formatted line')
+            me = symexec.self_obj(ux, 'ExpandedTraceback')
+            fd = symexec.new_fd(sym, ux, calls={'Location': lambda *a, **k: Obj('Location', args=a)},
+                                extra=dict(flags))
+            got, raised = symexec.run(fd, fl, [fmt, frame], bound_self=me, what='ExpandedTraceback.format_line')
+            ctx.check(raised is None, 'R4', 'format_line[%s,%s]' % (vname, fname), ux, fl,
+                      "rendering a traceback entry %s under the Python %s switches raises %s (%s) while the failure is "
+                      "being recorded" % (fname, vname, raised.kind if raised is not None else '',
+                                          raised.detail if raised is not None else ''),
+                      "PYTHONNODEBUGRANGES=1 (or python -X no_debug_ranges): every student runtime error, even `a / b`, "
+                      "makes run() raise TypeError into the instructor script")
     ctx.floor('R4', 'functions in the taint closure', n_fns, 3)
     ctx.floor('R4', 'conversion sites of the exception object', n_conv, 1)
     # templates
